@@ -24,4 +24,15 @@ def exProfile : Profile :=
     timeNanos := 0, durationNanos := 0, periodType := none, period := 0 }
 
 
+/-- f in file a (id 1), f in file b (id 2); sample main→ f/a, then location [f/b inlined into f/b]. -/
+def uqProfile : Profile :=
+  { exProfile with
+    samples := [{ locationIDs := [2, 1], values := [5], label := [], numLabel := [], numUnit := [] }],
+    locations := [
+      { id := 1, mappingID := 0, address := 16, lines := [⟨1, 0, 0⟩], isFolded := false },
+      { id := 2, mappingID := 0, address := 32, lines := [⟨2, 0, 0⟩, ⟨2, 0, 0⟩], isFolded := false } ],
+    functions := [
+      { id := 1, name := [102], systemName := [102], filename := [97], startLine := 1 },
+      { id := 2, name := [102], systemName := [102], filename := [98], startLine := 2 } ] }
+
 end PV.Stacks
